@@ -132,8 +132,9 @@ FamG == { Cs(o, <<ImsRq(n, "GET", r, ims), ImsRq(n, "HEAD", r, ims), ImsRq(n, "G
 
 \* ---- W: the WriteTo loops of the readers (io.Copy into a plain writer)
 WToks == NumToks(IF Thorough THEN {0, 1, 2, 3, 4, 5} ELSE {0, 1, 2, 3})
-FamW == { Cs(Opt(rt, TRUE, FALSE, FALSE, FALSE, "iocopy"), <<FileRq(n, "GET", r), FileRq(n, "GET", r)>>) :
-            rt \in (IF Thorough THEN {"fs", "file"} ELSE {"fs"}), n \in Lens \cup BigLens,
+FamW == { Cs(o, <<FileRq(n, "GET", r), FileRq(n, "GET", r)>>) :
+            o \in {Opt("fs", TRUE, FALSE, FALSE, FALSE, "iocopy")} \cup (IF Thorough THEN {Opt("file", TRUE, TRUE, FALSE, TRUE, "iocopy")} ELSE {}),
+            n \in Lens \cup BigLens,
             r \in RangesAB(WToks) \cup RangesA(WToks) \cup RangesS(WToks) \cup {NoRange, EmptyRange} }
         \cup { Cs(Opt("fs", TRUE, FALSE, ix, ge, "iocopy"), <<Rq(p, "dir", "GET", r), Rq(p, "dir", "GET", r)>>) :
             ix \in BOOLEAN, ge \in BOOLEAN, p \in {"/", "/d", "/m"}, r \in FewRanges }
